@@ -38,6 +38,7 @@ Definition E_NOT_IFACE : N := 5.        (* may only be applied to type interface
 Definition E_METHOD_NAME : N := 6.      (* method must have one name *)
 Definition E_VALUE_NAME : N := 7.       (* must have one name *)
 Definition E_NOT_VALUESPEC : N := 8.    (* expected value spec *)
+Definition E_ON_FUNC : N := 9.          (* marker may not be defined on a func declaration *)
 
 Definition doc_lines (doc : list comment) : list rstr := setting_lines (comment_to_string doc).
 Definition has_marker (m : rstr) (doc : list comment) : bool := contains m (comment_to_string doc).
@@ -93,9 +94,13 @@ Definition parse_gen_decl (d : gdecl) : res (list rawconv) :=
          end
   else parse_specs (d_specs d).
 
-(* ParseDocs only looks at GenDecls: a function declaration is skipped whatever its doc says *)
+(* a function declaration never is a converter; a marker in its doc is an error *)
 Definition parse_decl (d : decl) : res (list rawconv) :=
-  match d with DGen g => parse_gen_decl g | DFunc _ => Ok [] end.
+  match d with
+  | DGen g => parse_gen_decl g
+  | DFunc doc => if has_marker x_converter_marker doc || has_marker x_variables_marker doc
+                 then Diag E_ON_FUNC else Ok []
+  end.
 
 (* ParseDocs over the declarations of a file: first error aborts *)
 Fixpoint parse_decls (ds : list decl) : res (list rawconv) :=
